@@ -2,7 +2,12 @@
   LOOP MODE IS SOUND (main clause of C08): at every vector of alternatives that the choice object of
   a bounded variable accepts, the derivation of the calculus is failure-free for that variable and
   everything it depends on, and the column its bound is read from is the calculus' column
-  (`loop_mode_sound`).
+  (`loop_mode_sound`, `loop_mode_sound_of_names`, `loop_mode_sound_maybe`); the statement must be
+  a loop (`LoopSoundEx.needs_loop`).
+
+  Files: `LoopSoundSpec` (calculus side), `LoopSoundCorr` (`loop_correction` cell by cell),
+  `LoopSoundInv` (the invariant `CInv` and its closure properties), `LoopSoundStmt` (induction
+  over statements), `LoopSoundAnc` (ancestors), this file (assembly, examples).
 -/
 import Mwp.Lemmas.LoopSoundAnc
 import Mwp.Lemmas.Misc08
@@ -296,5 +301,138 @@ theorem loop_mode_sound (loop : Node) (cmd : Cmd) (hd : desugar loop = some cmd)
     apply List.map_congr_left
     intro x hx
     exact (hcoleq x hx).symm
+
+open Spec Refine Analysis LoopAnalysis LoopSound in
+/-- every recorded variable of the loop is a variable of the inspected relation -/
+theorem LoopSound.inspect_vars (loop : Node) (cmd : Cmd) (hd : desugar loop = some cmd)
+    (hnames : namesOkA loop = true) (hfresh : guardsFresh cmd = true)
+    (rel : Relation) (index : Nat) (infty : Bool) (h : inspectRel loop = .ok (rel, index, infty)) :
+    ∀ v ∈ varsP loop, v ∈ rel.vars := by
+  obtain ⟨vs, dI, rels, sk, hvs, hcm, hrl⟩ := inspectRel_inv loop rel index infty h
+  obtain ⟨hnd, hne, hvm⟩ := variables_wf loop vs hvs
+  have hdl : desugarL [loop] = some [cmd] := by simp [desugarL, hd]
+  have hnl : namesOkAL [loop] = true := by simp [namesOkAL, hnames]
+  have hgl : guardsFreshL [cmd] = true := by simp [guardsFreshL, hfresh]
+  obtain ⟨r0, hr0, _, hsub, _⟩ := cmds_core false vs hnd hne [loop] [cmd] hdl hnl hgl dI index rels sk hcm
+  have hrel0 : rel = r0 := by rw [hrl, hr0]; rfl
+  intro v hv
+  rw [hrel0]
+  exact hsub v ((hvm v).2 hv)
+
+open Spec Refine Analysis LoopAnalysis LoopSound in
+/-- `loop_mode_sound` with the coverage hypothesis discharged from a check on the names: no
+    variable of the reading is a reserved name (`true` / `false`) or empty -/
+theorem loop_mode_sound_of_names (loop : Node) (cmd : Cmd) (hd : desugar loop = some cmd)
+    (hloop : isLoopCmd cmd = true)
+    (hnames : namesOkA loop = true) (hfresh : guardsFresh cmd = true)
+    (hres : ∀ v ∈ cmd.vars, v ≠ "" ∧ v ∉ Gen.reserved)
+    (rel : Relation) (index : Nat) (infty : Bool) (h : inspectRel loop = .ok (rel, index, infty))
+    (v : String) (r : VRes) (hr : getResult rel index v = .ok r)
+    (c : Choices.T) (hc : r.choices = some c) (vec : List Nat) (hvec : Choices.VecOK Gen.domain index vec)
+    (hacc : Choices.isValid c vec = true) :
+    okFor (semI rel.vars cmd 0 (relabel cmd vec)).2 (Spec.idxOf rel.vars v) = true ∧
+    SMat.column (semI rel.vars cmd 0 (relabel cmd vec)).2 (Spec.idxOf rel.vars v)
+      = SMat.column (rel.applyChoice vec) (Spec.idxOf rel.vars v) := by
+  apply loop_mode_sound loop cmd hd hloop hnames hfresh rel index infty h _ v r hr c hc vec hvec hacc
+  intro u hu
+  have hrec := desugar_vars (sizeOf loop + 1) loop (Nat.lt_succ_self _) cmd hd u hu
+  rcases hrec with h1 | h1 | h1
+  · exact inspect_vars loop cmd hd hnames hfresh rel index infty h u h1
+  · exact absurd h1 (hres u hu).2
+  · exact absurd h1 (hres u hu).1
+
+open Spec Refine Analysis LoopAnalysis LoopSound in
+/-- the same for the results of `maybe_result` (some variable of the loop fails): every bounded
+    entry of its output was produced by `get_result` -/
+theorem loop_mode_sound_maybe (loop : Node) (cmd : Cmd) (hd : desugar loop = some cmd)
+    (hloop : isLoopCmd cmd = true)
+    (hnames : namesOkA loop = true) (hfresh : guardsFresh cmd = true)
+    (rel : Relation) (index : Nat) (infty : Bool) (h : inspectRel loop = .ok (rel, index, infty))
+    (hcov : ∀ v ∈ cmd.vars, v ∈ rel.vars)
+    (pick : Option (List Nat)) (rs : List VRes) (hm : maybeResult rel index pick = .ok rs)
+    (r : VRes) (hrs : r ∈ rs)
+    (c : Choices.T) (hc : r.choices = some c) (vec : List Nat) (hvec : Choices.VecOK Gen.domain index vec)
+    (hacc : Choices.isValid c vec = true) :
+    ∃ v, getResult rel index v = .ok r ∧
+    okFor (semI rel.vars cmd 0 (relabel cmd vec)).2 (Spec.idxOf rel.vars v) = true ∧
+    SMat.column (semI rel.vars cmd 0 (relabel cmd vec)).2 (Spec.idxOf rel.vars v)
+      = SMat.column (rel.applyChoice vec) (Spec.idxOf rel.vars v) := by
+  rcases Misc08.maybeResult_inv rel index pick rs hm r hrs with ⟨v, rfl⟩ | ⟨v, hv⟩
+  · simp [VRes.unbounded] at hc
+  · exact ⟨v, hv, loop_mode_sound loop cmd hd hloop hnames hfresh rel index infty h hcov v r hv c hc vec hvec hacc⟩
+
+/-! ## why the statement must be a loop, and non-vacuity -/
+
+namespace LoopSoundEx
+open Spec Refine Analysis LoopAnalysis LoopSound
+
+/-- `if (a) { while (d) y = w + w; } else { if (b) x = y; else z = x; }` -/
+def ifEx : Node :=
+  .ifs (.id "a") (some (.while_ (.id "d") (.assign "=" (.id "y") (.binop "+" (.id "w") (.id "w")))))
+    (some (.ifs (.id "b") (some (.assign "=" (.id "x") (.id "y"))) (some (.assign "=" (.id "z") (.id "x")))))
+def ifCmd : Cmd :=
+  .ite (.while_ (.bin "+" "y" (.var "w") (.var "w"))) (.ite (.asgnVar "x" "y") (.asgnVar "z" "x"))
+
+set_option maxRecDepth 100000 in
+/-- WITHOUT `hloop` the statement is false.  `inspectRel` / `get_result` applied to an `if`
+    statement: `z` only receives a flow from `x`, whose column never fails, so `get_result` accepts
+    the alternative 0 for `z`; but `x` receives `y` in another branch, and at alternative 0 the loop
+    `while (d) y = w + w` fails for `y`: the derivation is not failure-free for the ancestors of `z`.
+    (In a loop the flows of all branches are composed by the closure, so an ancestor is a source:
+    that is what `get_result` relies on.  The implementation only calls loop mode on loops.) -/
+theorem needs_loop :
+    desugar ifEx = some ifCmd ∧ isLoopCmd ifCmd = false ∧ namesOkA ifEx = true ∧ guardsFresh ifCmd = true ∧
+    (do let (rel, index, _) ← inspectRel ifEx
+        let r ← getResult rel index "z"
+        pure (index, ifCmd.vars.all (fun v => rel.vars.contains v),
+          r.choices.map (fun c => Choices.isValid c [0]),
+          okFor (semI rel.vars ifCmd 0 (relabel ifCmd [0])).2 (Spec.idxOf rel.vars "z"))).toOption
+      = some (1, true, some true, false) := by
+  refine ⟨by rfl, by decide, by decide, by decide, by decide⟩
+
+/-- `for (i = 0; i < n; i++) { z = z + b; out = z * z; }` -/
+def forEx : Node :=
+  .for_ (some (.assign "=" (.id "i") (.const "int" "0"))) (some (.binop "<" (.id "i") (.id "n")))
+    (some (.unop "p++" (.id "i")))
+    (.compound (some [.assign "=" (.id "z") (.binop "+" (.id "z") (.id "b")),
+      .assign "=" (.id "out") (.binop "*" (.id "z") (.id "z"))]))
+def forCmd : Cmd :=
+  .loop "n" (.seq [.bin "+" "z" (.var "z") (.var "b"), .bin "*" "out" (.var "z") (.var "z")])
+
+set_option maxRecDepth 100000 in
+/-- non-vacuity: the hypotheses of `loop_mode_sound_of_names` hold for `forEx`, loop mode reports a
+    (polynomial) bound for `out` whose choice object accepts exactly the vectors `[0, _]` … -/
+theorem forEx_data :
+    desugar forEx = some forCmd ∧ isLoopCmd forCmd = true ∧ namesOkA forEx = true ∧
+    guardsFresh forCmd = true ∧ (∀ v ∈ forCmd.vars, v ≠ "" ∧ v ∉ Gen.reserved) ∧
+    (inspectRel forEx).toOption.map (fun p => (p.1.vars, p.2.1)) = some (["b", "n", "out", "z"], 2) ∧
+    (do let (rel, index, _) ← inspectRel forEx
+        let r ← getResult rel index "out"
+        pure (r.isM, r.isW, r.isP)).toOption = some (false, false, true) ∧
+    (do let (rel, index, _) ← inspectRel forEx
+        let r ← getResult rel index "out"
+        pure (r.choices.map (fun c => (Spec.allChoices index).filter (Choices.isValid c)))).toOption
+      = some (some [[0, 0], [0, 1], [0, 2]]) := by
+  refine ⟨by rfl, by decide, by decide, by decide, by decide, by decide, by decide, by decide⟩
+
+/-- … and at each of them the theorem applies -/
+example (rel : Relation) (index : Nat) (infty : Bool) (h : inspectRel forEx = .ok (rel, index, infty))
+    (r : VRes) (hr : getResult rel index "out" = .ok r) (c : Choices.T) (hc : r.choices = some c)
+    (vec : List Nat) (hvec : Choices.VecOK Gen.domain index vec) (hacc : Choices.isValid c vec = true) :
+    okFor (semI rel.vars forCmd 0 (relabel forCmd vec)).2 (Spec.idxOf rel.vars "out") = true ∧
+    SMat.column (semI rel.vars forCmd 0 (relabel forCmd vec)).2 (Spec.idxOf rel.vars "out")
+      = SMat.column (rel.applyChoice vec) (Spec.idxOf rel.vars "out") :=
+  loop_mode_sound_of_names forEx forCmd forEx_data.1 forEx_data.2.1 forEx_data.2.2.1 forEx_data.2.2.2.1
+    forEx_data.2.2.2.2.1 rel index infty h "out" r hr c hc vec hvec hacc
+
+-- the concrete instance at the first accepted vector: the calculus' column of `out` is `z ↦ w`
+set_option maxRecDepth 100000 in
+example : (do let (rel, _, _) ← inspectRel forEx
+              pure (okFor (semI rel.vars forCmd 0 (relabel forCmd [0, 0])).2 (Spec.idxOf rel.vars "out"),
+                SMat.column (semI rel.vars forCmd 0 (relabel forCmd [0, 0])).2 (Spec.idxOf rel.vars "out"),
+                SMat.column (rel.applyChoice [0, 0]) (Spec.idxOf rel.vars "out"))).toOption
+    = some (true, [.p, .p, .m, .w], [.p, .p, .m, .w]) := by decide
+
+end LoopSoundEx
 
 end Mwp
